@@ -1,8 +1,8 @@
 """C18 Routing is deterministic: patterns invert, ambiguity is detected (structural clauses)."""
 import struct
 
-from mirlib import AnchorMissing, describe_call, describe_operand, describe_place, describe_rvalue, dom_guards, guards, _suffix_match
-from rules.common import aggregates, panic_sites, where
+from mirlib import switch_desc, AnchorMissing, describe_call, describe_operand, describe_place, describe_rvalue, dom_guards, guards, _suffix_match
+from rules.common import success_edge, aggregates, panic_sites, where
 
 META = {
     "explanation": (
@@ -52,6 +52,25 @@ def run(ctx):
             return any(d.startswith(a) and l == b for d, l in gs)
         surplus = any(has(gs, "disc(next(parts))", "Some") and has(gs, "disc(next(self.segments", "None") or (has(gs, "disc(next(parts))", "Some") and any(l == "None" and "segments" in d for d, l in gs)) for gs in nones)
         missing = any(has(gs, "disc(next(parts))", "None") and (has(gs, "is_some(", "true") or any(l == "Some" and "segments" in d for d, l in gs)) for gs in nones)
+        # the same two facts read off the control flow (a `match (parts.next(), segments.next())` sends both mismatches to one shared arm, which no
+        # single test dominates): from the edge on which one side has an element and the other has none, every way on ends in `None`
+        none_blocks = {i for i, j, p, rv, line in up.assigns() if p[0] == 0 and not p[1] and describe_rvalue(up, rv) == "Option::None()"}
+        s_parts = [si for si in up.switches_on(lambda p_, si: si.get("kind") == "disc") if (switch_desc(up, si["block"]) or "") == "disc(next(parts))"]
+        s_segs = [si for si in up.switches_on(lambda p_, si: si.get("kind") == "disc") if (switch_desc(up, si["block"]) or "").startswith("disc(next(") and "segments" in (switch_desc(up, si["block"]) or "")]
+        def mismatch_ends_in_none(outer, o_var, inner, i_var):
+            for so in outer:
+                to = (up.variant_edges(so["block"]) or {}).get(o_var)
+                if to is None:
+                    continue
+                for sn in inner:
+                    if not (sn["block"] == to or up.dominates(to, sn["block"])):
+                        continue
+                    tn = (up.variant_edges(sn["block"]) or {}).get(i_var)
+                    if tn is not None and none_blocks and up.must_pass([tn], none_blocks, targets=set(up.exits()) | {so["block"]})[0]:
+                        return True
+            return False
+        surplus = surplus or mismatch_ends_in_none(s_parts, "Some", s_segs, "None") or mismatch_ends_in_none(s_segs, "None", s_parts, "Some")
+        missing = missing or mismatch_ends_in_none(s_parts, "None", s_segs, "Some") or mismatch_ends_in_none(s_segs, "Some", s_parts, "None")
         r.check(surplus, "unapply_parts/surplus-route-segment=>None", where(up), "a route with more segments than the pattern does not match", "no None return for a surplus route segment (guards of the None returns: %s)" % nones)
         r.check(missing, "unapply_parts/missing-route-segment=>None", where(up), "a route with fewer segments than the pattern does not match", "no None return for a missing route segment")
 
@@ -64,13 +83,15 @@ def run(ctx):
                 return "decoded-bytes"
             return "raw"
 
-        def literal_cmp(b):
+        def literal_cmp(b0):
             out = []
-            for c in b.calls:
-                if c.name in ("eq", "ne") and len(c.args) == 2:
-                    a0, a1 = describe_operand(b, c.args[0]), describe_operand(b, c.args[1])
-                    if "segment_str(" in a0 + a1:
-                        out.append((c, form(a0), form(a1)))
+            # (in the function itself, or in a closure it hands to an adapter: `left.iter().zip(right).all(|(l, r)| ..)`)
+            for b in [b0] + list(ro.closures_of(b0.defpath)):
+              for c in b.calls:
+                  if c.name in ("eq", "ne") and len(c.args) == 2:
+                      a0, a1 = describe_operand(b, c.args[0]), describe_operand(b, c.args[1])
+                      if "segment_str(" in a0 + a1:
+                          out.append((c, form(a0), form(a1)))
             return out
         eqs = literal_cmp(up)
         if len(eqs) != 1:
@@ -94,7 +115,7 @@ def run(ctx):
                 alien = [d for d, l, _ in g if not any(t in d for t in DECISIVE)]
                 r.check(not alien, "are_ambiguous/false-only-for-decisive-reasons", am.loc(line), "`false` is returned only on grounds that exclude a common route for every URI (segment count, unequal literals)",
                         "are_ambiguous answers false on the ground of `%s`, which unapply does not treat as decisive (a pattern without a scheme matches URIs of any scheme, and a URI without a scheme is matched by patterns of any scheme): two patterns that both match the same URI are accepted as unambiguous" % (alien[0][:80] if alien else ""))
-        g = dom_guards(am, cmps[0].block)
+        g = dom_guards(cmps[0].body, cmps[0].block)
         r.check(sum(1 for d, l, _ in g if d.endswith(".parameter") and l == "false") == 2, "are_ambiguous/only-literal-pairs-can-differ", cmps[0].loc(), "a pair of segments separates two patterns only if both are literals")
         lens = [c for c in am.calls if c.name == "len" and "segments" in describe_operand(am, c.args[0])]
         r.check(len(lens) == 2, "are_ambiguous/length-test", where(am), "patterns of different length are not ambiguous (unapply requires the exact number of segments)")
@@ -133,6 +154,10 @@ def run(ctx):
             which = "value" if "get(params" in src else "literal"
             cn = c.args[1][1].get("item") if c.args[1][0] == "k" else None
             if not cn:
+                # the set handed on through a helper's parameter: the one named constant it can be
+                items_ = {x[2].get("item") for x in ap.sources(c.args[1], stop_at_calls=False) if x[0] == "const" and isinstance(x[2], dict) and x[2].get("item")}
+                cn = next(iter(items_)) if len(items_) == 1 else None
+            if not cn:
                 r.bad("apply/%s/encode-set" % which, c.loc(), "the AsciiSet passed to utf8_percent_encode is not a named constant")
                 continue
             enc = ascii_set(ro.const(cn.split("swimos_route::")[-1]))
@@ -147,8 +172,19 @@ def run(ctx):
         ru = ctx.saw(ro.fn(suffix="route_uri::parser::route_uri"))
         r.check(any(c.name == "all_consuming" for c in ru.calls) or any("eof" == c.name for c in ru.calls), "route_uri/parser-consumes-all-input", where(ru), "the route-URI parser requires the whole input to be a URI",
                 "route_uri accepts a valid prefix and ignores the rest: '/x/a^b' parses as path '/x/a', so a truncated parameter is bound")
-        emp = [c for c in ap.calls if c.name == "is_empty"]
-        r.check(len(emp) == 1 and "get(params" in describe_operand(ap, emp[0].args[0]), "apply/empty-value-is-missing", emp[0].loc() if emp else where(ap), "an empty parameter value is reported as missing (it could not be matched back)")
+        emp = [c for c in ap.calls if c.name == "is_empty" and "get(params" in describe_operand(ap, c.args[0])]
+        emp_ok = len(emp) == 1
+        if not emp:
+            # `params.get(name).filter(|value| !value.is_empty())`: the same test as a predicate on the looked-up value
+            for c in ap.calls:
+                if c.name == "filter" and c.args and "get(params" in describe_operand(ap, c.args[0]):
+                    for cd in c.callee.get("closure_args", ()):
+                        if cd in ro.by_def and any(x.name == "is_empty" for x in ro.body(cd).calls):
+                            rets_ = [describe_rvalue(ro.body(cd), rv) for i, j, p, rv, line in ro.body(cd).assigns() if p[0] == 0 and not p[1]]
+                            if rets_ and all(x.startswith("Not(is_empty(") for x in rets_):
+                                emp_ok = True
+                                emp = [c]
+        r.check(emp_ok, "apply/empty-value-is-missing", emp[0].loc() if emp else where(ap), "an empty parameter value is reported as missing (it could not be matched back)")
 
     with ctx.rule("C18.R4", "T2", "the plane refuses ambiguous routes; the server resolves by the URI alone", floor=5) as r:
         sa = ctx.crate(SA)
@@ -210,7 +246,16 @@ def run(ctx):
         calls = [c.name for b in fr for c in b.calls if c.name in ("unapply_route_uri", "unapply_str", "find_map", "find")]
         for b in fr:
             ctx.saw(b)
-        r.check("unapply_route_uri" in calls and "find_map" in calls, "find_route/first-pattern-that-unapplies", where(fr[0]), "a node URI is resolved by RoutePattern::unapply_route_uri over the routes in order (URI alone)", "find_route uses %s" % calls)
+        # in order, first match wins: `iter().find_map(..)`, or a loop over the routes that returns from inside on the first Ok
+        in_order = "find_map" in calls
+        for b in fr:
+            for c in b.calls:
+                if c.name == "unapply_route_uri":
+                    se = success_edge(b, c, "Ok")
+                    nx = [x for x in b.calls if x.name == "next" and b.dominates(x.block, c.block)]
+                    if se is not None and nx and not b.reaches(se, {nx[0].block}) and not any(x.name in ("rev", "sort", "sort_by", "sort_by_key", "last", "max_by", "min_by") for x in b.calls):
+                        in_order = True
+        r.check("unapply_route_uri" in calls and in_order, "find_route/first-pattern-that-unapplies", where(fr[0]), "a node URI is resolved by RoutePattern::unapply_route_uri over the routes in order (URI alone)", "find_route uses %s" % calls)
         # registration goes through the builder (so the ambiguity check cannot be bypassed): who pushes onto PlaneModel.routes
         pushers = set()
         for b in sa.all_bodies():
